@@ -21,7 +21,7 @@ func init() {
 			"handles the kind of every field reachable from a node (R06b); the two unchecked assertions are dominated by the tests that make them safe (R06c); every other panic is an enumerated " +
 			"precondition of an option or of tree shape (R06d). Against hangs and buffer faults: fill() is only called with a constant-bounded number of unread bytes, so a read into a full " +
 			"buffer (which would spin) cannot happen (R06e); backward offsets into the read buffer are guarded against underflow (R06f); every lexer/parser loop consumes input, reports an error " +
-			"or leaves on each cycle (R06h). A reused Parser/Printer starts from reset state (R06g, shared with C08), which the index and nil safety of the per-parse bookkeeping relies on.",
+			"or leaves on each cycle (R06h). A reused Parser/Printer starts from reset state (R06g, shared with C08), which the index and nil safety of the per-parse bookkeeping relies on. The read buffer is indexed at the cursor only past a length test or a non-zero fill(), whose contract (cursor at the start of a non-empty buffer) is checked in fill (R06k).",
 		NotDecided:  "general index, nil and slice-bounds safety of the lexer and printer; running time beyond `each loop cycle consumes input`; trees not produced by the parser (typed nil pointers inside interfaces).",
 		Assumptions: []string{"readers follow the io.Reader contract for non-empty buffers (a reader that keeps returning 0, nil makes fill() retry forever)", "option functions are called with documented arguments (Variant(LangAuto), StopAt longer than four bytes panic by design)"},
 		Controls:    c06Controls,
